@@ -24,6 +24,7 @@ macro_rules! refresh_short {
         #[cfg_attr(kani, kani::unwind(33))]
         #[cfg_attr(kani, kani::stub(chrono::Utc::now, crate::verif::rt::stub_now))]
         #[cfg_attr(kani, kani::stub(crate::decoder::get_downlink_format, super::rows::stub_get_df))]
+        #[cfg_attr(kani, kani::stub(crate::decoder::adsb::icao::get_icao, super::rows::stub_get_icao))]
         #[cfg_attr(verif_replay, test)]
         fn $name() {
             let m = frame14();
@@ -45,9 +46,11 @@ macro_rules! refresh_long {
         #[cfg_attr(kani, kani::unwind(90))]
         #[cfg_attr(kani, kani::stub(chrono::Utc::now, crate::verif::rt::stub_now))]
         #[cfg_attr(kani, kani::stub(crate::decoder::get_downlink_format, super::rows::stub_get_df))]
+        #[cfg_attr(kani, kani::stub(crate::decoder::adsb::icao::get_icao, super::rows::stub_get_icao))]
         #[cfg_attr(kani, kani::stub(crate::decoder::utils::get_message_type, super::rows::stub_get_tc))]
         #[cfg_attr(kani, kani::stub(crate::decoder::adsb::ais::ais, super::rows::stub_ais))]
         #[cfg_attr(kani, kani::stub(crate::decoder::adsb::position::cpr_location, super::rows::stub_cpr_location))]
+        #[cfg_attr(kani, kani::stub(crate::decoder::adsb::position::cpr, super::rows::stub_cpr))]
         #[cfg_attr(kani, kani::stub(crate::decoder::ehs::base::track_and_groundspeed, stub_tag))]
         #[cfg_attr(verif_replay, test)]
         fn $name() {
@@ -56,14 +59,29 @@ macro_rules! refresh_long {
             if $tc != 99 {
                 pin_tc(&m, $tc);
             }
-            let use_update = any_bool();
-            let relaxed = any_bool();
-            let Some((df, icao)) = accepted(&m) else { return };
-            let (mut p, age) = stale_row(icao);
-            apply(&mut p, &m, df, use_update, relaxed);
-            vcover!(use_update, "-U");
-            vcover!(!use_update && age == 59, "default path (or Comm-B), row 59 s old");
-            vassert!(age_of(&p) == 0, "C12: last-contact age does not restart at 0 with an accepted frame");
+            // position squitters (TC 5-18) write a CPR slot: decide each parity with a constant index
+            if $tc >= 5 && $tc <= 18 {
+                if bit(&m, 54) == 0 {
+                    unsafe { PIN_F = 0 };
+                    go(&m);
+                } else {
+                    unsafe { PIN_F = 1 };
+                    go(&m);
+                }
+            } else {
+                go(&m);
+            }
+            fn go(m: &[u32; 28]) {
+                let m = *m;
+                let use_update = any_bool();
+                let relaxed = any_bool();
+                let Some((df, icao)) = accepted(&m) else { return };
+                let (mut p, age) = stale_row(icao);
+                apply(&mut p, &m, df, use_update, relaxed);
+                vcover!(use_update, "-U");
+                vcover!(!use_update && age == 59, "default path (or Comm-B), row 59 s old");
+                vassert!(age_of(&p) == 0, "C12: last-contact age does not restart at 0 with an accepted frame");
+            }
         }
     };
 }
